@@ -31,8 +31,10 @@ def optimal_rmsd(A, B):
         [2 * (qy * qx + q0 * qz), q0 * q0 - qx * qx + qy * qy - qz * qz, 2 * (qy * qz - q0 * qx)],
         [2 * (qz * qx - q0 * qy), 2 * (qz * qy + q0 * qx), q0 * q0 - qx * qx - qy * qy + qz * qz],
     ])
-    e2 = (np.sum(A * A) + np.sum(B * B) - 2.0 * lam) / len(A)
-    return float(np.sqrt(max(e2, 0.0))), Rc.T
+    # the deviation is evaluated directly with the rotation found (an achievable value, so an upper bound of the optimum that
+    # is tight to rounding); the closed form |A|^2+|B|^2-2*lambda cancels catastrophically for nearly congruent sets
+    diff = A @ Rc.T - B
+    return float(np.sqrt(np.vdot(diff, diff) / len(A))), Rc.T
 
 
 def improper_optimum(A, B):
